@@ -19,9 +19,10 @@ import (
 type QCase struct {
 	Cfg      Config `json:"cfg"`
 	Me       int    `json:"me"`
-	Scenario string `json:"scenario"` // prepare | commit | elect
-	Senders  []int  `json:"senders"`  // identity indices in delivery order; repeats allowed; >= N are outsiders
-	Timeouts int    `json:"timeouts"` // elect: Me's own timeouts before the votes arrive (0 = votes for a future view)
+	Scenario string `json:"scenario"`       // prepare | commit | elect
+	Senders  []int  `json:"senders"`        // identity indices in delivery order; repeats allowed; >= N are outsiders
+	Timeouts int    `json:"timeouts"`       // elect: Me's own timeouts before the votes arrive (0 = votes for a future view)
+	Jump     int    `json:"jump,omitempty"` // elect: the votes are for the Jump-th later view that Me leads (0 = the next one): a member far behind still takes its turn
 }
 
 type QRun struct {
@@ -162,6 +163,7 @@ func RunQCase(c QCase) *QRun {
 		if w.LeaderIdx(h, view) != me.Idx {
 			return q
 		}
+		view += uint64(c.Jump) * uint64(len(com))
 		tmo := c.Timeouts
 		if uint64(tmo) > view {
 			tmo = int(view)
